@@ -180,6 +180,21 @@ CHECKS = {
         engine="tlc"),
 }
 
+CHECKS["C19"] = dict(
+    category="model_checking",
+    text="spec/Readers.tla models the CSV reader at record-shape level (header arrangements with unknown / duplicated / missing "
+         "columns, records of any length, a wrong-typed cell anywhere, with and without header; explicit Panic outcome where the code "
+         "would index out of range) and the JSON stream reader at token level (truncation anywhere, wrong top-level value, wrong "
+         "element type, garbage). TLC evaluates NeverPanics / JsonPrefixOK and enumerates every case (14k quick) with the rows of "
+         "the well-formed prefix; each is rendered to bytes 4 / 2 ways and fed to the real ReadFromReader / JSONToChan in a "
+         "timer-free child (panic -> child dies, hang -> Go deadlock detector, leaks -> census); 9 HTTP statuses x 13 bodies run "
+         "against TiingoRepository through an in-process server.",
+    design_ref="DESIGN.md 2.5, 5 (C19)",
+    note="Trusted: TLC, the renderings, the child-process protocol. Arbitrary byte strings are reached only through renderings of the "
+         "structural cases (not a fuzzer); the HTTP part uses a 15 s watchdog.",
+    technique="TLC-enumerated record/token-level cases rendered to bytes and fed to the real readers in a child process",
+    engine="tlc")
+
 NOT_APPLICABLE = {
     "C15": "numeric range invariants of float formulas: no discrete state or transition for a TLA+ model to decide (DESIGN.md 6)",
     "C18": "relation between two float executions (homogeneity): numeric, not a state machine TLC can check (DESIGN.md 6)",
